@@ -1,3 +1,4 @@
+use crate::common::manager::info::GetManagerInfo;
 use crate::server::event::journal::{JournalReader, JournalWriter};
 use crate::server::event::payload::EventPayload;
 use tako::JobId;
@@ -9,17 +10,25 @@ pub(crate) fn prune_journal(
     live_job_ids: &Set<JobId>,
     live_worker_ids: &Set<WorkerId>,
 ) -> crate::Result<()> {
+    // Workers started from an allocation have to be kept even when they are gone,
+    // the resources provided by the workers of an allocation queue are restored from them
+    let mut allocation_worker_ids: Set<WorkerId> = Set::new();
     for event in reader {
         let mut event = event?;
         let event = match &mut event.payload {
-            EventPayload::WorkerConnected(worker_id, _) => {
-                live_worker_ids.contains(worker_id).then_some(event)
+            EventPayload::WorkerConnected(worker_id, configuration) => {
+                if configuration.get_manager_info().is_some() {
+                    allocation_worker_ids.insert(*worker_id);
+                }
+                (live_worker_ids.contains(worker_id) || allocation_worker_ids.contains(worker_id))
+                    .then_some(event)
             }
             // Losses caused by a failure have to be kept, the crash counters
             // of the tasks of live jobs are restored from them
-            EventPayload::WorkerLost(worker_id, reason) => {
-                (reason.is_failure() || live_worker_ids.contains(worker_id)).then_some(event)
-            }
+            EventPayload::WorkerLost(worker_id, reason) => (reason.is_failure()
+                || live_worker_ids.contains(worker_id)
+                || allocation_worker_ids.contains(worker_id))
+            .then_some(event),
             EventPayload::WorkerOverviewReceived(overview) => {
                 live_worker_ids.contains(&overview.id).then_some(event)
             }
